@@ -159,34 +159,73 @@ def _replay_simulate(clsname):
     return {'real': r, 'confirmed': not ok, 'note': 'replay: real simulate twice with different sizes; buffer shapes against exact rational ceil(M/dt)+1'}
 
 
+MULTI_UL_REPLAY = '''
+import math
+from fractions import Fraction
+import pfhedge.instruments as pi
+bad = []
+for (dta, dtb, M) in ((Fraction(1, 12), Fraction(1, 250), Fraction(10, 250)), (Fraction(1, 10), Fraction(1, 365), Fraction(7, 365)), (Fraction(1, 250), Fraction(1, 12), Fraction(1, 2))):
+    a = pi.BrownianStock(dt=float(dta)); b = pi.BrownianStock(dt=float(dtb))
+    d = pi.EuropeanOption(a, maturity=float(M)); d.register_underlier("second", b)
+    d.simulate(n_paths=2)
+    for (u, dt) in ((a, dta), (b, dtb)):
+        want = math.ceil(M / dt) + 1
+        if u.spot.size(1) != want: bad.append((str(dta), str(dtb), str(M), u.spot.size(1), want))
+result = {"got": [str(x) for x in bad], "ref": []}
+'''
+
+
 def derivative_simulate_ob():
     def check():
         t0 = time.time()
         import torch
         import pfhedge.instruments as pi
         seen = []
+        dta, dtb, M = tm.var('dta'), tm.var('dtb'), tm.var('M')
 
         def run(c):
+            del seen[:]
+
             class Rec(pi.BrownianStock):
                 def simulate(self, **kw):
                     seen.append((self, kw))
-            a, b = Rec(), Rec()
-            d = pi.EuropeanOption(a, maturity=SReal(tm.var('M')))
+            a, b = Rec(dt=SReal(dta)), Rec(dt=SReal(dtb))        # two underliers with DIFFERENT step sizes
+            d = pi.EuropeanOption(a, maturity=SReal(M))
             d.register_underlier('second', b)
             init = (SReal(tm.var('i0')),)
             d.simulate(n_paths=SInt(NP), init_state=init)
-            return a, b, init
-        del seen[:]
-        paths = explore(run, BASE, max_paths=4)
-        if len(paths) != 1 or paths[0].outcome() != 'returns':
-            return Verdict('unknown', 'engine', time.time() - t0, str([(p.outcome(), p.traceback[-400:]) for p in paths]))
-        a, b, init = paths[0].result
-        ok = (len(seen) == 2 and seen[0][0] is a and seen[1][0] is b and all(lift(kw['n_paths']) is NP and lift(kw['time_horizon']) is tm.var('M') and kw['init_state'] is init for _, kw in seen))
-        if ok:
-            return Verdict('proved', 'structural', time.time() - t0, '', sample={'claim': 'BaseDerivative.simulate forwards (n_paths, maturity, init_state) to every underlier in registration order'})
-        return Verdict('refuted', 'structural', time.time() - t0, 'underlier simulate calls: %s' % [(id(s), sorted(k)) for s, k in seen], witness={'calls': len(seen)}, replay={'confirmed': False})
+            return a, b, init, list(seen)
+        hyps = BASE + [tm.gt(dta, tm.ZERO), tm.gt(dtb, tm.ZERO), tm.gt(M, tm.ZERO)]
+        paths = explore(run, hyps, max_paths=16)
+        rows = []
+        for p in paths:
+            if p.outcome() != 'returns':
+                return Verdict('unknown', 'engine', time.time() - t0, str([(q.outcome(), q.traceback[-400:]) for q in paths]))
+            a, b, init, calls = p.result
+            if not (len(calls) == 2 and calls[0][0] is a and calls[1][0] is b):
+                return Verdict('refuted', 'structural', time.time() - t0, 'underlier simulate calls: %d (expected one per underlier, in registration order)' % len(calls), witness={'calls': len(calls)},
+                               replay={'confirmed': False})
+            facts = p.facts(hyps)
+            for (u, kw), dt_ in zip(calls, (dta, dtb)):
+                if lift(kw['n_paths']) is not NP or kw['init_state'] is not init:
+                    return Verdict('refuted', 'structural', time.time() - t0, 'n_paths / init_state not forwarded unchanged', witness={}, replay={'confirmed': False})
+                h = tm.as_term(lift(kw['time_horizon']))
+                # what matters for the time grid: the number of time points this underlier will get
+                got = tm.ceil(tm.add(tm.div(h, dt_), tm.ONE))
+                want = tm.ceil(tm.add(tm.div(M, dt_), tm.ONE))
+                r = smt.prove(facts, tm.eq(got, want), timeout_ms=20000)
+                rows.append(('underlier with step %s gets ceil(maturity/dt + 1) time points (time_horizon = %s)' % (tm.show(dt_), tm.show(h)[:60]), r))
+        for (label, r) in rows:
+            if r.status == 'sat':
+                rr = real_exec(MULTI_UL_REPLAY, {}, timeout=600)
+                conf = not (rr.get('ok') and rr['result']['got'] == [])
+                return Verdict('refuted' if conf else 'unknown', r.backend, time.time() - t0, label + ': not for all maturities / step sizes', witness={'vc': label}, replay={'real': rr, 'confirmed': conf})
+            if r.status != 'unsat':
+                return Verdict('unknown', r.backend, time.time() - t0, label)
+        return Verdict('proved', 'structural + z3 (LIRA)', time.time() - t0, '%d path(s)' % len(paths),
+                       sample={'claim': 'BaseDerivative.simulate simulates EVERY underlier, in registration order, over the maturity (n_paths, init_state unchanged), whatever the underliers\' own step sizes'})
     return Obligation('INS/BaseDerivative.simulate/wiring', 'post', 'pfhedge.instruments.derivative.base.BaseDerivative.simulate', check, ['C13'],
-                      clause='simulating a derivative simulates EVERY underlier with time_horizon = maturity and the same n_paths / init_state')
+                      clause='simulating a derivative with several underliers of different step sizes gives each of them ceil(maturity/dt + 1) time points, the same n_paths / init_state')
 
 
 def ttm_ob():
